@@ -314,4 +314,20 @@ theorem runQuery_nets_exact {env : Env R Re} {s : State R Re} (q : Query) (hs : 
     (runQuery env s q).2.answer.1 = nets ((pure1 env (env.reqOf q)).filter (keep (avail env s))) := by
   rw [runQuery_degraded q hs, pureAnswer_nets _ q hq, restrict_reqOf, pure1_restrict]
 
+/-- ORDER, lifted to histories with `close` events anywhere. -/
+theorem history_sublist {env : Env R Re} (h : List HEv) : ∀ (s : State R Re), SInv env s →
+    ∀ t ∈ (runHistoryT env s h).2, t.answer.1.Sublist (pureAnswer env t.q).1 ∧
+      t.answer.2.Sublist (pureHosts env (env.reqOf t.q)) := by
+  induction h with
+  | nil => intro s _ t ht; cases ht
+  | cons e rest ih =>
+    intro s hs t ht
+    cases e with
+    | query q =>
+      simp only [runHistoryT, List.mem_cons] at ht
+      rcases ht with rfl | ht
+      · rw [runQuery_q]; exact runQuery_sublist q hs
+      · exact ih _ (runQuery_good q hs).1 t ht
+    | close l => exact ih { s with closed := l :: s.closed } hs t ht
+
 end UF.Prog
